@@ -53,7 +53,8 @@ pub fn gen_call(
                     &Expected::from(right),
                     env,
                 );
-                generate(right, &env_assigned_to.is_expr(true), ctx, constr)?;
+                // the new value is computed before the target counts as assigned
+                generate(right, &env.is_expr(true), ctx, constr)?;
                 generate(left, &env_assigned_to, ctx, constr)?;
                 Ok(env_assigned_to)
             } else {
